@@ -12,6 +12,11 @@ from common import (CORPUS, HARNESS, ToolError, Stage, cargo_build, log, run_tlc
 
 OK_PAIRS = ["tracked", "box", "string", "big", "align64", "zst", "plain", "drop_to_plain", "plain_to_drop"]
 MM_PAIRS = ["mm_size", "mm_align", "mm_both", "mm_zst_in", "mm_zst_out", "mm_align_down", "mm_size_down", "mm_both_down"]
+# refusal grid (untracked elements): same alignment a in {1, 2, 4, 8} with sizes {0, a, 2a, 3a} in every ordered pair,
+# and the same size in {0, 8, 24} under every ordered pair of alignments
+GRID_PAIRS = (["g_a%d_s%d_s%d" % (a, s1, s2) for a in (1, 2, 4, 8) for s1 in (0, a, 2 * a, 3 * a)
+               for s2 in (0, a, 2 * a, 3 * a) if s1 != s2]
+              + ["g_s%d_a%d_a%d" % (sz, a1, a2) for sz in (0, 8, 24) for a1 in (1, 2, 4, 8) for a2 in (1, 2, 4, 8) if a1 != a2])
 
 
 def from_tlc(line):
@@ -173,6 +178,10 @@ def pipeline(tier, seed):
         nmm = 0
         for p in MM_PAIRS:
             for n in [0, 1, 2, 3, 4, 9]:
+                scs.append({"n": n, "script": [], "pair": p, "source": "matrix"})
+                nmm += 1
+        for p in GRID_PAIRS:
+            for n in [0, 1, 3]:
                 scs.append({"n": n, "script": [], "pair": p, "source": "matrix"})
                 nmm += 1
         for i, s in enumerate(scs):
